@@ -65,7 +65,9 @@ def types():
     tp = re.sub(r'(\n\s+)(\w+):', r'\1pub \2:', tp)
     rc = extract_item('circuit-prover/src/batch_stark_prover.rs', r'pub struct RowCounts\(')
     rc = rc.replace('RowCounts([usize', 'RowCounts(pub [usize')
-    return tp + '\n' + rc
+    pt = extract_item('circuit/src/ops/op.rs', r'pub enum PrimitiveOpType\b')
+    pt = re.sub(r'///[^\n]*\n', '', pt)
+    return tp + '\n' + rc + '\n#[derive(Clone, Copy)]\n' + pt + '\npub type PrimitiveTable = PrimitiveOpType;\n'
 
 
 def build():
@@ -118,9 +120,13 @@ def build():
     rn.ensures('well_formed', 'ret.wf() && ret.0 == rows')
     rn.loop('while i < rows.len()', invariants=[('pre', 'i <= rows@.len() && rows@.len() == NUM_PRIMITIVE_TABLES && forall|q: int| 0 <= q < NUM_PRIMITIVE_TABLES ==> #[trigger] rows@[q] > 0')], decreases='rows@.len() - i')
     rv = u.extract(B, r'impl RowCounts', 'validate', 'RowCounts::validate')
-    rv.rewrite('R6', 'self.0.contains(&0)', '({ let mut any_ = false; for q_ in 0..self.0.len() { if self.0[q_] == 0 { any_ = true; } } any_ })')
     rv.ensures('ok_iff_well_formed', 'ret is Ok <==> self.wf()')
-    rv.loop('for q_ in 0..self.0.len()', invariants=[('any', 'self.0@.len() == NUM_PRIMITIVE_TABLES && any_ == exists|i: int| 0 <= i < q_ && #[trigger] self.0@[i] == 0')])
+    if 'self.0.contains(&0)' in ' '.join(rv.body.split()):
+        rv.rewrite('R6', 'self.0.contains(&0)', '({ let mut any_ = false; for q_ in 0..self.0.len() { if self.0[q_] == 0 { any_ = true; } } any_ })')
+        rv.loop('for q_ in 0..self.0.len()', invariants=[('any', 'self.0@.len() == NUM_PRIMITIVE_TABLES && any_ == exists|i: int| 0 <= i < q_ && #[trigger] self.0@[i] == 0')])
+    else:
+        # another way of walking the counts: no loop contract can be attached to text the unit does not know; the function is judged by its postcondition (a loop without an invariant havocs what it writes)
+        rv.attr('#[verifier::exec_allows_no_decreases_clause]')
     u.text('verus! {\nimpl RowCounts {')
     u.emit(rn)
     u.emit(rv)
